@@ -164,6 +164,7 @@ var saReaders = []*saReader{
 		read: func(in *saInput) error { _, err := post.Read(in.src); return err }},
 	{name: "os2.Read", viaReader: true, stream: table("OS/2"),
 		read: func(in *saInput) error { _, err := os2.Read(in.src); return err }},
+	os2Version(0), os2Version(1), os2Version(2), os2Version(3), os2Version(4), os2Version(5),
 	{name: "head.Read", viaReader: true, stream: table("head"),
 		read: func(in *saInput) error { _, err := head.Read(in.src); return err }},
 	{name: "maxp.Read", viaReader: true, stream: table("maxp"),
@@ -185,6 +186,21 @@ var saReaders = []*saReader{
 			return info.Encode()
 		},
 		read: func(in *saInput) error { _, err := kern.Read(in.src); return err }},
+}
+
+// os2Version: the OS/2 table of the font with its version word set to v (the writer only emits one
+// version; which lengths are complete depends on the version the stream declares).
+func os2Version(v int) *saReader {
+	return &saReader{name: fmt.Sprintf("os2.Read[version=%d]", v), viaReader: true,
+		stream: func(_ *sfnt.Font, tabs map[string][]byte) []byte {
+			t := append([]byte{}, tabs["OS/2"]...)
+			if len(t) < 96 {
+				return nil
+			}
+			t[0], t[1] = 0, byte(v)
+			return t
+		},
+		read: func(in *saInput) error { _, err := os2.Read(in.src); return err }}
 }
 
 func saByName(op string) *saReader {
